@@ -169,6 +169,19 @@ class Eval:
             return (e[0], e[1], a, b)
         return tuple(self._concretise(x, depth + 1) if isinstance(x, tuple) else x for x in e)
 
+    def deref_locals(self, e, depth=0):
+        """e with loads from single-assignment cells of local tables replaced by what was stored there"""
+        lc = self.flow._localcells
+        if not lc or not isinstance(e, tuple) or depth > 6:
+            return e
+        if len(e) == 2 and e[0] == "load":
+            inner = self.deref_locals(e[1], depth + 1)
+            if inner in lc:
+                return self.flow.expr(lc[inner])
+            return ("load", inner) if inner is not e[1] else e
+        out = tuple(self.deref_locals(x, depth + 1) if isinstance(x, tuple) else x for x in e)
+        return out if out != e else e
+
     def path_expr(self, ref):
         """expression of `ref` with phis replaced by the value that reached them on this path"""
         for _ in range(8):
@@ -189,7 +202,16 @@ class Eval:
                 ref = i["a"]
             else:
                 break
-        return self.flow.expr(ref)
+        e = self.flow.expr(ref)
+        if self.flow._localcells and self._has_load(e):
+            e2 = self.deref_locals(self._concretise(e))
+            if e2 != e:
+                return e2
+        return e
+
+    @staticmethod
+    def _has_load(e):
+        return vf.mentions(e, lambda x: isinstance(x, tuple) and len(x) == 2 and x[0] == "load")
 
     def val(self, ref, depth=10):
         if ref.startswith("#"):
@@ -307,6 +329,15 @@ class Eval:
                         v = self.facts.get(("M", pe3))
                     if v is None:
                         v = self.flow.hooks.load_value(pe3, self)
+            if v is None and self.flow._localcells and self._has_load(pe):
+                # the address comes out of a local table of pointers
+                pe4 = self.deref_locals(self._concretise(pe))
+                if pe4 != pe:
+                    v = self.flow.hooks.load_override(pe4, self)
+                    if v is None:
+                        v = self.facts.get(("M", pe4))
+                    if v is None:
+                        v = self.flow.hooks.load_value(pe4, self)
             if v is None and pe[0] in ("phi", "select"):
                 # the address was chosen on this path (p = c ? &a : &b): look the cell up under the address actually taken
                 pe2 = self.path_expr(d["ptr"])
@@ -372,6 +403,7 @@ class Flow:
         self._useblocks = None
         self._loadkeys = None
         self._escaped = None
+        self._localcells = {}
         self.decisions = 0
 
     def expr(self, ref):
@@ -437,6 +469,39 @@ class Flow:
                 if isinstance(r, tuple) and r[0] == "alloca":
                     esc.add(r[1])
         self._escaped = esc
+        # local tables of pointers (struct x **roots[] = {&a, &b}): cells of a local object that is only ever indexed, each
+        # written by exactly one store - a load from such a cell is the value stored there
+        def addr_root(e):
+            # the object an address expression points into (not followed through loads)
+            while isinstance(e, tuple) and e and e[0] in ("fld", "idx", "ptradd"):
+                e = e[1]
+            return e
+
+        def canon(pe):
+            # {&a, &b} is initialised through &t[0], &t[0] + 1, ...
+            if pe[0] == "ptradd" and isinstance(pe[1], tuple) and pe[1][0] == "idx" and pe[1][2][0] == "c" and pe[2][0] == "c":
+                return ("idx", pe[1][1], ("c", pe[1][2][1] + pe[2][1]))
+            return pe
+        touched = set()
+        for i in fn.all_insts():
+            if i.op in ("call", "invoke"):
+                for a in i.args:
+                    r = addr_root(self.expr(a))
+                    if isinstance(r, tuple) and r[0] == "alloca":
+                        touched.add(r[1])
+        cells = {}
+        for i in fn.all_insts():
+            if i.op == "store":
+                pe = canon(self.expr(i["ptr"]))
+                r = addr_root(pe)
+                if isinstance(r, tuple) and r[0] == "alloca" and r[1] not in esc and r[1] not in touched:
+                    cells.setdefault(r[1], {}).setdefault(pe, []).append(i["val"])
+        self._localcells = {}
+        for aid, m in cells.items():
+            if all(len(v) == 1 and not vf.mentions(pe, lambda x: isinstance(x, tuple) and x[0] in ("phi", "load", "call")) for pe, v in m.items()):
+                for pe, v in m.items():
+                    if pe[0] in ("idx", "ptradd"):
+                        self._localcells[pe] = v[0]
         self._reach = {}
         for b in fn.blocks:
             self._reach[b.id] = fn.reachable_blocks(b.id) | {b.id}
